@@ -531,7 +531,7 @@ ENGINE_RULE = ("(pattern AST from the generator, flags, haystack sampled from th
                "non-trivial = the search finds a match; distinct by (pattern, flags, haystack, start)")
 
 PLANS = {
-    "C07": dict(proofs=["Proofs.C07", "Proofs.C07pre", "Proofs.SourceConsts"], custom="c07",
+    "C07": dict(proofs=["Proofs.C07", "Proofs.C07pre", "Proofs.SourceConsts", "Proofs.OptHeight"], custom="c07",
                 runs=[("syntax", dict(quick=20000, thorough=600000), ["--focus", "C07"]), ("compiler", dict(quick=10000, thorough=300000))],
                 rule="all strings up to length 3 (thorough 4) over 25 syntax symbols x {-,u,v}; generated valid patterns, single-token mutations, random syntax-alphabet strings incl. surrogate code points; 30 adversarially large patterns (10^5..10^6 alternatives / nesting 255,256,257,10^5 / 65535,65536 groups and loops / 30-digit counts / 10^6-char literals / ...) each in a worker process; non-trivial = compiles",
                 technique="Lean 4 proofs about the parser / optimizer / emitter models with every Rust panic site explicit (case classes <= 4, pre-scan totality, …) + exact correspondence of the parser model (accept/reject and IR) + adversarial stream in worker processes"),
